@@ -61,40 +61,44 @@ HugeBindFails(b) ==
     LET mv == ModelVerdict(b)
     IN  IF mv["v2"].inc \/ mv["v1b"].inc THEN {<< "BIND", "huge-chunk-too-short-to-stand-for-the-rest", "huge" >>} ELSE {}
 
+(* the predicates of every property on buffer b with verdicts v, h = history before b *)
+Observe(b, h, v, chunkLen, huge, extra, extraNt) ==
+    LET c12 == C12(b, v)
+    IN  Emit(extra \cup (IF huge THEN HugeBindFails(b) ELSE BindFails(b, v))
+            \cup Sel("C01", C01_Fails(b, v))
+            \cup Sel("C02", C02_Fails(b, v))
+            \cup Sel("C03", C03_Fails(b, v))
+            \cup Sel("C04", C04_Fails(b, v, h))
+            \cup Sel("C05", C05_Fails(b, v, h))
+            \cup Sel("C06", C06_Fails(b, v))
+            \cup Sel("C08", C08_StreamFails(b, v))
+            \cup Sel("C11", C11_Fails(b, v))
+            \cup c12.f
+            \cup Sel("C14", C14_Fails(b, v))
+            \cup Sel("C15", C15_Fails(b, v))
+            \cup Sel("C16", C16_Fails(b, v))
+            \cup Sel("C17", C17_Fails(b, v, h, chunkLen))
+            \cup Sel("C18", C18_Fails(b, v))
+            \cup Sel("DRIFT", IF huge THEN {} ELSE DriftFails(b, v)),
+            Flag("C01", C01_Nontrivial(b, v))
+            \cup Flag("C02", C02_Nontrivial(b, v))
+            \cup Flag("C03", Len(b) > 0)
+            \cup Flag("C04", C04_Nontrivial(b, v, h))
+            \cup Flag("C05", C05_Nontrivial(b, v, h))
+            \cup Flag("C06", C06_Nontrivial(b, v))
+            \cup Flag("C08", C15_Nontrivial(b, v))
+            \cup Flag("C11", C14_Nontrivial(b, v))
+            \cup Flag("C12", c12.nt)
+            \cup Flag("C14", C14_Nontrivial(b, v))
+            \cup Flag("C15", C15_Nontrivial(b, v))
+            \cup Flag("C16", C16_Nontrivial(b, v))
+            \cup Flag("C17", C17_Nontrivial(b, v))
+            \cup Flag("C18", C18_Nontrivial(b, v))
+            \cup extraNt)
+
 RecvBody(chunk, v, huge) ==
-    LET b == buf \o chunk
-        c12 == C12(b, v)
-    IN  /\ Recv(chunk, v)
-        /\ Emit((IF huge THEN HugeBindFails(b) ELSE BindFails(b, v))
-                \cup Sel("C01", C01_Fails(b, v))
-                \cup Sel("C02", C02_Fails(b, v))
-                \cup Sel("C03", C03_Fails(b, v))
-                \cup Sel("C04", C04_Fails(b, v, hist))
-                \cup Sel("C05", C05_Fails(b, v, hist))
-                \cup Sel("C06", C06_Fails(b, v))
-                \cup Sel("C08", C08_StreamFails(b, v))
-                \cup Sel("C11", C11_Fails(b, v))
-                \cup c12.f
-                \cup Sel("C14", C14_Fails(b, v))
-                \cup Sel("C15", C15_Fails(b, v))
-                \cup Sel("C16", C16_Fails(b, v))
-                \cup Sel("C17", C17_Fails(b, v, hist, Len(chunk)))
-                \cup Sel("C18", C18_Fails(b, v))
-                \cup Sel("DRIFT", IF huge THEN {} ELSE DriftFails(b, v)),
-                Flag("C01", C01_Nontrivial(b, v))
-                \cup Flag("C02", C02_Nontrivial(b, v))
-                \cup Flag("C03", Len(b) > 0)
-                \cup Flag("C04", C04_Nontrivial(b, v, hist))
-                \cup Flag("C05", C05_Nontrivial(b, v, hist))
-                \cup Flag("C06", C06_Nontrivial(b, v))
-                \cup Flag("C08", C15_Nontrivial(b, v))
-                \cup Flag("C11", C14_Nontrivial(b, v))
-                \cup Flag("C12", c12.nt)
-                \cup Flag("C14", C14_Nontrivial(b, v))
-                \cup Flag("C15", C15_Nontrivial(b, v))
-                \cup Flag("C16", C16_Nontrivial(b, v))
-                \cup Flag("C17", C17_Nontrivial(b, v))
-                \cup Flag("C18", C18_Nontrivial(b, v)))
+    /\ Recv(chunk, v)
+    /\ Observe(buf \o chunk, hist, v, Len(chunk), huge, {}, {})
 
 TraceRecv ==
     /\ IsEvent("Recv")
@@ -106,6 +110,16 @@ TraceHuge ==
     /\ RecvBody(Flat(Ev.c), Ev.obs, TRUE)
     /\ UNCHANGED tag
 
+(* the receiver removes the accepted header (n = what its length accessor returned) and parses
+   what is left; the remainder starts a new epoch *)
+TraceConsume ==
+    /\ IsEvent("Consume")
+    /\ LET rest == SubSeq(buf, Ev.n + 1, Len(buf))
+       IN  /\ Consume(Ev.n, Ev.obs)
+           /\ Observe(rest, Hist0, Ev.obs, 0, FALSE,
+                      Sel("C04", C04_ConsumeFails(buf, Ev.n)), Flag("C04", TRUE))
+    /\ UNCHANGED tag
+
 TraceReparse ==
     /\ IsEvent("Reparse")
     /\ Emit(Sel("C04", C04_ReparseFails(Ev.ep, Flat(Ev.input), Ev.r, hist))
@@ -113,7 +127,7 @@ TraceReparse ==
             Flag("C04", TRUE))
     /\ UNCHANGED << buf, verdict, hist, tag >>
 
-TraceNext == TraceReset \/ TraceRecv \/ TraceHuge \/ TraceReparse
+TraceNext == TraceReset \/ TraceRecv \/ TraceHuge \/ TraceConsume \/ TraceReparse
 
 TraceSpec == TraceInit /\ [][TraceNext]_tvars
 
